@@ -66,7 +66,9 @@ def r02b(ctx, rep, which):
             if g is None:
                 continue
             for c in A.calls(g):
-                if re.search(r'fs::File::set_len$', c.resolved) or (not append_mode and re.search(r'Seek>::seek$|Seek::seek$', c.resolved)):
+                # only cutting the file repairs a torn tail: a cursor placed in front of it leaves the rest of the torn record in
+                # the file, and the next scan reads its zero runs as empty records
+                if re.search(r'fs::File::set_len$', c.resolved):
                     # the new length must come from scanning records
                     defs = A.Defs(g)
                     sl = A.backward_slice(g, [c.args[1]] if len(c.args) > 1 else [], defs)
@@ -541,3 +543,43 @@ def r02j(ctx, rep, which):
                 else:
                     rep.holds('R02j', f, 'writer replacement#%d' % k, 'flush() Ok is must-pass')
         rep.floor('R02j', '%s writer replacements' % w, n, 1)
+
+
+def r02k(ctx, rep, which):
+    """records reach the file through one buffer, in order."""
+    rep.rule('R02k', 'records reach the file in the order they were appended: no WAL method writes to the file underneath its BufWriter '
+                     '(write / write_all on the result of BufWriter::get_mut / get_ref) unless the Ok edge of a flush() of that writer is '
+                     'must-pass before it. Bytes written around the buffer overtake the records still sitting in it: under batched or '
+                     'manual sync a later record is in the file before earlier ones, and a crash image (or an overwrite of one key, small '
+                     'then big) replays in the wrong order')
+    for w in which:
+        spec = WALS[w]
+        cr = ctx.crate(spec['crate'])
+        st = spec['struct']
+        n = 0
+        for name, f in sorted(cr.fns.items()):
+            if not re.sub(r'::<[^>]*>', '', name).startswith(st + '::') or '{closure' in name:
+                continue
+            inner = [c for c in A.calls(f) if re.search(r'BufWriter::<W>::(get_mut|get_ref)$', c.resolved)]
+            n += 1
+            if not inner:
+                continue
+            defs, uses = A.Defs(f), A.Uses(f)
+            roots = {c.dest[0] for c in inner}
+            cut = set()
+            for c in A.calls(f):
+                if re.search(r'Write>?::flush$', c.resolved) or re.search(r'Write>?::flush$', c.generic):
+                    cut |= set(A.call_outcome(f, c, uses).ok) or {(c.bb, c.target)}
+            R = A.reachable(f, [0], cut_edges=cut) if cut else set(range(len(f.bbs)))
+            for c in A.calls(f):
+                if not (re.search(r'Write>?::(write_all|write)$', c.resolved) or re.search(r'Write>?::(write_all|write)$', c.generic)) or not c.args or c.args[0][0] == 'k':
+                    continue
+                sl = A.backward_slice(f, [c.args[0]], defs)
+                if (sl.locals & roots) and c.bb in R:
+                    rep.analysed(f)
+                    rep.violation('R02k', f, 'write-around-the-buffer', f.loc(c.line),
+                                  'bytes are written to the file underneath the BufWriter without flushing it first: records still in the '
+                                  'buffer end up behind them in the log')
+                    break
+        rep.holds('R02k', st, 'one buffer', '%d methods checked' % n)
+        rep.floor('R02k', '%s methods checked' % w, n, 3)
